@@ -79,7 +79,25 @@ func implMatch(tss *mercure.TopicSelectorStore, topic, sel string) bool {
 
 type c11Q struct{ Topic, Sel string }
 
+// a dense universe around the separator: whatever concatenation scheme keys the cache,
+// distinct pairs over these few strings collide under it
+var c11DenseSel = []string{"{x}", "{x}_", "{x}__", "_{x}", "__{x}", "{x}_b", "{x}__b", "{x}_{y}", "b_{x}", "{x}b", "{x}_b_", "b{x}"}
+
+func c11Dense(r *hx.Rng, n int) []c11Q {
+	var qs []c11Q
+	for len(qs) < n {
+		qs = append(qs, c11Q{r.StringFrom([]string{"_", "b", "_", "__"}, 4), r.Pick(c11DenseSel)})
+		if r.Chance(0.3) {
+			qs = append(qs, qs[r.Intn(len(qs))])
+		}
+	}
+	return qs
+}
+
 func c11Queries(r *hx.Rng, n int) []c11Q {
+	if r.Chance(0.4) {
+		return c11Dense(r, n)
+	}
 	var qs []c11Q
 	for len(qs) < n {
 		sel := r.Pick(c11Selectors)
